@@ -1304,6 +1304,10 @@ impl ASN1Value {
                         integer_type: i.int_type(),
                         value,
                     };
+                } else if let Some(ToplevelDefinition::Value(tld)) = tlds.get(identifier) {
+                    // Not a named number: a reference to another value assignment
+                    *self = tld.value.clone();
+                    self.link_with_type(tlds, ty, type_name)?;
                 }
                 Ok(())
             }
@@ -1332,6 +1336,10 @@ impl ASN1Value {
                         enumerated: tld.name().clone(),
                         enumerable: identifier.clone(),
                     };
+                } else if let Some(ToplevelDefinition::Value(tld)) = tlds.get(identifier) {
+                    // Not an enumeral: a reference to another value assignment
+                    *self = tld.value.clone();
+                    self.link_with_type(tlds, ty, type_name)?;
                 }
                 Ok(())
             }
